@@ -1150,7 +1150,7 @@ def exGrid : GGrid := { ox := 0, oy := 0, cx := 1, cy := 1, nx := 3 }
 -- the four shapes of the result on concrete segments (dart, t, s)
 example : crossingsOf exGrid epsF64 (1/4, 1/2) (7/4, 3/4) = [⟨2, 5/8, 1/2⟩] := by decide +kernel
 example : (crossingsOf exGrid epsF64 (1/4, 1/4) (9/4, 5/4)).map (·.dart) = [2, 7, 18] := by decide +kernel
-example : (crossingsOf exGrid epsF64 (9/4, 5/4) (1/4, 1/4)).map (·.dart) = [20, 5, 4] := by decide +kernel
+example : (crossingsOf exGrid epsF64 (9/4, 5/4) (1/4, 1/4)).map (·.dart) = [24, 17, 8] := by decide +kernel
 example : (crossingsOf exGrid epsF64 (1/4, 1/4) (9/4, 5/4)).map (·.s) = [3/8, 3/4, 7/8] := by decide +kernel
 example : crossingsOf exGrid epsF64 (1/4, 1/4) (3/4, 1/2) = [] := by decide +kernel
 
@@ -1163,21 +1163,22 @@ theorem exGenPos : GenPos exGrid (1 / 8) (1/4, 1/2) (7/4, 3/4) := by
     intro s; simp only [segPoint]; ring
   have nonint : ∀ (q : Rat) (m : Int), (m : Rat) < q → q < (m : Rat) + 1 → ∀ K : Int, q ≠ (K : Rat) :=
     fun q m h1 h2 K e => no_int_between h1 h2 e
-  refine ⟨by simp [exGrid], by simp [exGrid], by norm_num, by simp [exGrid], by simp [exGrid], ?_, ?_, ?_, ?_⟩
+  refine ⟨by norm_num [exGrid], by norm_num [exGrid], by norm_num, by norm_num [exGrid], by norm_num [exGrid],
+    ?_, ?_, ?_, ?_⟩
   · constructor
-    · rintro ⟨K, e⟩; simp [exGrid] at e; exact nonint (1/4) 0 (by norm_num) (by norm_num) K e
-    · rintro ⟨K, e⟩; simp [exGrid] at e; exact nonint (1/2) 0 (by norm_num) (by norm_num) K e
+    · rintro ⟨K, e⟩; exact nonint (1/4) 0 (by norm_num) (by norm_num) K (by simpa [exGrid] using e)
+    · rintro ⟨K, e⟩; exact nonint (1/2) 0 (by norm_num) (by norm_num) K (by simpa [exGrid] using e)
   · constructor
-    · rintro ⟨K, e⟩; simp [exGrid] at e; exact nonint (7/4) 1 (by norm_num) (by norm_num) K e
-    · rintro ⟨K, e⟩; simp [exGrid] at e; exact nonint (3/4) 0 (by norm_num) (by norm_num) K e
+    · rintro ⟨K, e⟩; exact nonint (7/4) 1 (by norm_num) (by norm_num) K (by simpa [exGrid] using e)
+    · rintro ⟨K, e⟩; exact nonint (3/4) 0 (by norm_num) (by norm_num) K (by simpa [exGrid] using e)
   · rintro s s0 s1 ⟨K, e⟩
     rw [hx] at e
     simp only [exGrid, zero_add, mul_one] at e ⊢
     have hK : K = 1 := by
       have a1 : (0 : Rat) < (K : Rat) := by linarith
       have a2 : (K : Rat) < 2 := by linarith
-      have b1 : (0 : Int) < K := Int.cast_lt.1 (by simpa using a1)
-      have b2 : K < 2 := Int.cast_lt.1 (by simpa using a2)
+      have b1 : (0 : Int) < K := by exact_mod_cast a1
+      have b2 : K < 2 := by exact_mod_cast a2
       omega
     subst hK
     have hs : s = 1/2 := by push_cast at e; linarith
